@@ -254,6 +254,28 @@ func c17(c *ev.Ctx) {
 			c.Violation(id, "join(split(s,d),d)", map[string]interface{}{"summary": fmt.Sprintf("s=%q d=%q: %s gives %s %s, expected %s", s, d, script, o.Desc(), errText(o.Err), want), "script": script})
 		}
 	})
+	// (c2) the same round trip for strings only a host can supply: invalid UTF-8, the
+	// replacement character, NUL, lone surrogates' encodings - with every separator
+	for si, hs := range []string{"a\xffb", "\xc3", "x\xe2\x82y\xf0\x9f", "ab\ufffdcd", "\ufffd", "a\x00b", "\xed\xa0\x80z", "é\xffé", "plain"} {
+		for di, d := range []string{"", ",", "a", "\xff", "\ufffd", "é"} {
+			id := fmt.Sprintf("joinsplit-host/%d/%d", si, di)
+			if !c.Want(id) {
+				continue
+			}
+			script := `p = split(S, D); j = join(p, D); return [j == S, len(j) == len(S), len(p)];`
+			for _, noOpt := range []bool{false, true} {
+				evr, err := eng.New(script, eng.Options{NoOptimize: noOpt})
+				if err != nil {
+					continue
+				}
+				o := evr.Exec(map[string]interface{}{"S": hs, "D": d})
+				c.Case(fmt.Sprintf("%q %q %v", hs, d, noOpt), true)
+				if want := fmt.Sprintf("ARRAY:[true, true, %d]", len(strings.Split(hs, d))); o.Desc() != want {
+					c.Violation(id, "join(split(s,d),d) for a host string", map[string]interface{}{"summary": fmt.Sprintf("S=%q D=%q (noopt=%v): %s gives %s %s, expected %s", hs, d, noOpt, script, o.Desc(), errText(o.Err), want), "script": script})
+				}
+			}
+		}
+	}
 	// (d) string-ish built-ins vs the model, every argument type
 	argVals := append(c01Values(), model.Str("  Pad  "), model.Str("MiXeD"), model.Str("12"), model.Str("-7"), model.Str("3.50"), model.Str(" 4"), model.Str("1e3"), model.Str("ÀÉ"), model.Float(3), model.Float(-0.25), model.Int(-42),
 		// numbers in every notation a careless conversion might accept or misread
